@@ -115,17 +115,28 @@ LegacyAsModel(doc, req, obs) ==
 (*    split into three segments, the literal template "/a%20b" never matches "/a%20b".   *)
 LegacyUrlView(doc, req, obs) ==
    /\ obs.k \in {"route", "rerr"} /\ LegacyAsModel(doc, req, obs)
-   /\ LegacyObs(doc, req, FALSE, FALSE, TRUE, TRUE) # CurLegacyObs(doc, req)
+   /\ LegacyObsH(doc, req, FALSE, FALSE, TRUE, TRUE, FALSE) # CurLegacyObs(doc, req)
 LegacyFragment(doc, req, obs) == Len(doc.servers) > 0 /\ FragGlued(req.u) /\ LegacyUrlView(doc, req, obs)
 LegacyDecoded(doc, req, obs) ==
    /\ Len(doc.servers) = 0 /\ \E i \in 1..Len(req.u.path) : IsEnc(req.u.path[i])
    /\ LegacyUrlView(doc, req, obs)
+
+(* F-C09-11: the legacy router matches Request.URL only.  A request in server form (the    *)
+(* form every handler of a net/http server receives: path in URL, host in Request.Host,    *)
+(* https as Request.TLS) is matched as the relative URL of its path, so under absolute      *)
+(* servers it is never found.  The observation is a route error, it is what the model of   *)
+(* the pinned code predicts, and the model that sees the request's host answers otherwise. *)
+LegacyIgnoresHost(doc, req, obs) ==
+   /\ UForm(req.u) = "server" /\ obs.k = "rerr"
+   /\ Gist(obs) = Gist(CurLegacyObs(doc, req))
+   /\ Gist(LegacyObsH(doc, req, FALSE, FALSE, TRUE, TRUE, TRUE)) # Gist(CurLegacyObs(doc, req))
 
 (* F-C09-6: the legacy router never looks at path-level servers.  The observation is     *)
 (* correct (or deviates in one of the other legacy classes) for the document without     *)
 (* its path-level servers, and the document has some.                                    *)
 LegacyClass(doc, req, obs) ==
    IF LegacyUnknownMethodPanic(doc, req, obs) THEN "legacy_unknown_method_panic"
+   ELSE IF LegacyIgnoresHost(doc, req, obs) THEN "legacy_ignores_request_host"
    ELSE IF LegacyFragment(doc, req, obs) THEN "legacy_fragment_glued_to_path"
    ELSE IF LegacyDecoded(doc, req, obs) THEN "legacy_noserver_decoded_path"
    ELSE IF obs.k = "route" /\ HasTempl(doc, obs.path) /\ LegacyEmptyBinding(doc, req, obs) THEN "legacy_empty_binding"
